@@ -159,6 +159,7 @@ func (m *CPU) Run(app risc.Application) (int, error) {
 					m.ctx.VerifTick(cycle)
 					cycle++
 					wu.cycle(m.ctx, from)
+					m.writeBus.Connect(cycle + 1)
 				}
 			}
 
